@@ -222,3 +222,12 @@ func (b *versionBook) see(content, version string) string {
 	b.byVersion[version] = content
 	return ""
 }
+
+func hashStr(s string) uint32 {
+	var h uint32 = 2166136261
+	for i := 0; i < len(s); i++ {
+		h = (h ^ uint32(s[i])) * 16777619
+	}
+	return h
+}
+
